@@ -537,3 +537,47 @@ def options_class_defaults(repo, cls):
         except (ValueError, SyntaxError):
             pass
     return out
+
+
+def rule_changes_forwarded(repo, chk, rule):
+    """T1 (CFG): wntr/sim/hydraulics.py update_model_for_controls forwards EVERY change the tracker reports to the model updater.
+
+    The loop over `change_tracker.get_changes(...)` must call `<updater>.update(...)` on every way round the loop body (no `continue`,
+    guard or early exit lets a reported change go by), and the reference point is reset only after the loop.  A change dropped here
+    (for instance "because the element is isolated right now") leaves Params that only the updater refreshes - per-junction PDD pressures
+    and exponent, leak area/coefficient, valve settings - stale when the element is used again."""
+    import ast as _ast
+    from ..cfg import CFG
+    from ..src import walk as _walk, call_name as _cn, loc as _loc, norm as _norm
+    rel = "wntr/sim/hydraulics.py"
+    fn = repo.func(rel, "update_model_for_controls")
+    chk.fn(fn)
+    g = CFG(fn)
+    loops = [n for n in _walk(fn) if isinstance(n, _ast.For) and any((_cn(c) or "").endswith("get_changes") for c in _walk(n.iter) if isinstance(c, _ast.Call))]
+    if not loops:
+        # the changes may be materialised first: for x in changes, with changes = <tracker>.get_changes(..)
+        names = set()
+        for n in _walk(fn):
+            if isinstance(n, _ast.Assign) and any((_cn(c) or "").endswith("get_changes") for c in _walk(n.value) if isinstance(c, _ast.Call)):
+                names |= {t.id for t in n.targets if isinstance(t, _ast.Name)}
+        loops = [n for n in _walk(fn) if isinstance(n, _ast.For) and isinstance(n.iter, (_ast.Name, _ast.Call)) and ({x.id for x in _ast.walk(n.iter) if isinstance(x, _ast.Name)} & names)]
+    if len(loops) != 1:
+        raise ExtractError("update_model_for_controls: the loop over the tracker's changes was not identified (%d candidates)" % len(loops))
+    loop = loops[0]
+    head = g.loop_heads.get(loop)
+    if head is None:
+        raise ExtractError("update_model_for_controls: loop head not in the CFG")
+    upd = [i for i in g.calling(".update") if g.g.nodes[i]["node"] is not None]
+    body_first = [b for a, b, d in g.g.out_edges(head, data=True) if d.get("cond") is True] or list(g.g.successors(head))
+    # from the first statement of the body, can the loop head be reached again (next change) or the function left without passing an update call?
+    w = None
+    for b in body_first:
+        w = g.can_reach_avoiding(b, {head, g.exit}, upd)
+        if w:
+            break
+    chk.expect(bool(upd) and w is None, rule, "update_model_for_controls hands every reported change to the model updater", _loc(rel, loop),
+               "a change that is skipped (isolated element, unknown attribute ...) is lost: the reference point is reset afterwards, so the updater never hears of it",
+               expected="every way round the loop over get_changes() calls <updater>.update(m, wn, obj, attr)", found=("path avoiding the update: " + g.path_text(w)) if w else ("no update call" if not upd else None))
+    rst = g.calling("reset_reference_point")
+    in_loop = [i for i in rst if any(g.g.nodes[i]["node"] is x or g.g.nodes[i].get("stmt") is x for x in _walk(loop))]
+    chk.expect(bool(rst) and not in_loop, rule, "the 'model' reference point is reset after all changes were forwarded", _loc(rel, fn), found="reset inside the loop" if in_loop else ("no reset" if not rst else None))
